@@ -27,4 +27,35 @@ func (*Keeper).SetBalance
     ensures supply: result == nil ==> bank_supply == cadd(old(bank_supply), cone(d, *amount - was))
     ensures account: result == nil ==> bank_bal == bal_put(old(bank_bal), a, cset(old(bank_bal)[a], d, *amount))
     ensures unchanged: result == nil && *amount == was ==> bank_bal == old(bank_bal) && bank_supply == old(bank_supply)
+
+// C02: writing an account back (what StateDB.Commit calls for every dirty, live object): the bank balance of exactly that account
+// becomes the cached balance - whatever its value, zero included - and the supply moves by exactly the difference
+func (*Keeper).SetAccount
+    let a = acc_of_bytes(addr_bytes(addr))
+    let d = evm_params.EvmDenom
+    let was = old(bank_bal)[a][d]
+    requires nonnil: k != nil && account.Balance != nil && k.bankKeeper != nil && k.accountKeeper != nil
+    modifies bank_bal, bank_supply
+    ensures balance: result == nil ==> bank_bal[a][d] == *account.Balance
+    ensures supply: result == nil ==> bank_supply == cadd(old(bank_supply), cone(d, *account.Balance - was))
+    ensures account: result == nil ==> bank_bal == bal_put(old(bank_bal), a, cset(old(bank_bal)[a], d, *account.Balance))
+    allow frame
+
+// C02: deleting a self-destructed account burns exactly its remaining bank balance in the EVM denomination (the sanctioned burn),
+// whatever kind of account the store holds at that address, and touches no other account
+func (*Keeper).DeleteAccount
+    let a = acc_of_bytes(addr_bytes(addr))
+    let d = evm_params.EvmDenom
+    let was = old(bank_bal)[a][d]
+    requires nonnil: k != nil && k.bankKeeper != nil && k.accountKeeper != nil
+    modifies bank_bal, bank_supply
+    // an account that exists is cleared or the deletion is refused; no nil result leaves coins behind
+    ensures cleared: result == nil && auth_account(k.accountKeeper, ctx, convto(addr_bytes(addr), AccAddr)) != nil ==> bank_bal[a][d] == 0
+            && bank_supply == cadd(old(bank_supply), cone(d, 0 - was)) && bank_bal == bal_put(old(bank_bal), a, cset(old(bank_bal)[a], d, 0))
+    ensures absent: auth_account(k.accountKeeper, ctx, convto(addr_bytes(addr), AccAddr)) == nil ==> result == nil && bank_bal == old(bank_bal) && bank_supply == old(bank_supply)
+    allow frame
+alias AccAddr github.com/cosmos/cosmos-sdk/types.AccAddress
+func (*Keeper).ForEachStorage
+    trusted
+    ensures true
 @*/
